@@ -52,6 +52,7 @@ func genC02(rng *rand.Rand, tier string) *core.Plan {
 		p.Ops = append(p.Ops, core.Op{K: []string{"compact", "tick", "tick", "jump", "rollup"}[rng.Intn(5)], A: []int64{1, 20, 2000, 4000000}[rng.Intn(4)]})
 	}
 	p.Cfg["maporder"] = rng.Intn(2) // tape-chosen iteration order of Go maps in the code under test
+	p.Cfg["dblclose"] = rng.Intn(2)
 	return p
 }
 
@@ -315,7 +316,20 @@ func (h *c02) readerTask(r int, ops []core.Op) {
 			}
 		}
 		delete(h.held, r)
-		snap.Close()
+		if c.Plan.C("dblclose", 0) == 1 {
+			// lindb shares one kv snapshot between the result sets of a family and each of them closes it
+			// (parallel load tasks): Close from two tasks at once must release the version once
+			closed := false
+			c.Sim.Spawn(fmt.Sprintf("closer%d", r), func() {
+				snap.Close()
+				closed = true
+			})
+			snap.Close()
+			c.Sim.Await(func() bool { return closed })
+			c.Sim.Probe("snapshot-closed-twice")
+		} else {
+			snap.Close()
+		}
 		c.Sim.Event("reader %d closed", r)
 	}
 }
